@@ -55,7 +55,8 @@ def gen_case(rng, size=None, profile=None):
         for r in range(nres):
             if rng.random() < 0.7:
                 ops.append("init:%d:%d" % (r, rng.choice([16777215, 16777214, 16777210, 16777216 + 5,
-                                                           8388607, 8388608, 0, 1, rng.randrange(1 << 24)])))
+                                                           8388607, 8388608, 0, 1, 255, 65535, 65534,
+                                                           (1 << 20) - 1, rng.randrange(1 << 24)])))
     ninit = len(ops)
     n += ninit
     live = []            # (c, r, q, tok) registrations we believe are live (best effort)
@@ -302,16 +303,18 @@ def translate(case_line, trace_line):
             new_group("D:%d:%s" % (pending_del, _ca(tk[1:], wire, t.ca_leaks, "op %d (%s)" % (len(t.groups), cur_hop))),
                       cur_hop)
             continue
-        if tk.startswith("F"):
-            c, tok, mid = tk[1:].split(":")
+        if tk.startswith("U"):
+            # a confirmable message is given up (seen at coap_retransmit, independent of what the
+            # library then does): the de-registration event "failed Confirmable notification"
+            c, mid = tk[1:].split(":")
             key = (int(c), int(mid))
             wire.get(int(c), set()).discard(int(mid))
             if key in by_mid:
                 new_group("F:%d:%d" % (int(c), by_mid[key]), cur_hop)
                 cur = None
-            else:
-                t.ok = False
-                t.why = "give-up of an unknown message " + tk
+            continue
+        if tk.startswith("F"):
+            # coap_handle_failed_notify ran (informational; the model op was made at the U event)
             continue
         if tk.startswith("X"):
             f = tk[1:].split(":")
